@@ -110,25 +110,79 @@ Proof.
   apply hello_tick_ok; auto.
 Qed.
 
+(* a tick or a frame arriving while DeviceUpdate holds the lock, under HEAD's discipline: the
+   update itself proceeds as without it; a tick yields one more hello iff the sender was sending *)
+Definition during_hellos (f : ifa) (w : during) : nat :=
+  match w with TickDuring => hello_count f | FrameDuring => 0%nat end.
+
+Lemma device_update_during_inv : forall f up w, inv f ->
+  exists f', device_update_during head_discipline f up w = Ok (f', during_hellos f w) /\
+             device_update f up = Ok f'.
+Proof.
+  intros f up w Hinv.
+  destruct (device_update_inv f up Hinv) as (f' & Hdu & _).
+  exists f'. split; [| exact Hdu].
+  unfold device_update_during, head_discipline. cbn [sender_locks receiver_locks].
+  rewrite !andb_false_r. rewrite Hdu.
+  unfold during_hellos, hello_count, sends_hellos.
+  destruct Hinv as [_ Hi]. destruct w; cbn [bind].
+  - destruct (passive f).
+    + destruct Hi as (_ & _ & Hs & _). rewrite Hs. simpl. destruct (dev_known f && oper_up f && negb up); reflexivity.
+    + destruct (link_up f).
+      * destruct Hi as (_ & He & Hs & _ & Ht). rewrite He, Hs, Ht. simpl.
+        destruct (dev_known f && oper_up f && negb up); reflexivity.
+      * destruct Hi as (_ & Hs & _ & _). rewrite Hs. simpl.
+        destruct (dev_known f && oper_up f && negb up); reflexivity.
+  - simpl. destruct (dev_known f && oper_up f && negb up); reflexivity.
+Qed.
+
+Lemma update_nth_during_ok : forall i s up w, Forall inv s ->
+  exists s', update_nth i s up = Ok s' /\
+    update_nth_during head_discipline i s up w =
+      Ok (s', match nth_error s i with Some f => during_hellos f w | None => 0%nat end).
+Proof.
+  induction i as [| i IH]; intros s up w Hall.
+  - destruct s as [| f r]; [exists []; split; reflexivity |].
+    inversion Hall as [| ? ? Hf Hr]; subst.
+    destruct (device_update_during_inv f up w Hf) as (f' & Hd & Hu).
+    exists (f' :: r). simpl. rewrite Hu, Hd. simpl. split; reflexivity.
+  - destruct s as [| f r]; [exists []; split; reflexivity |].
+    inversion Hall as [| ? ? Hf Hr]; subst.
+    destruct (IH r up w Hr) as (r' & Hu & Hd).
+    exists (f :: r'). simpl. rewrite Hu, Hd. simpl. split; reflexivity.
+Qed.
+
+Definition ev_target (e : event) : nat * bool :=
+  match e with Dev i up => (i, up) | DevDuring i up _ => (i, up) end.
+
+Definition ev_during (s : srv) (e : event) : nat :=
+  match e with
+  | Dev _ _ => 0%nat
+  | DevDuring i _ w => match nth_error s i with Some f => during_hellos f w | None => 0%nat end
+  end.
+
 Lemma step_inv : forall s e, Forall inv s ->
-  exists s', step s e = Ok (s', map hello_count s') /\ Forall inv s' /\
-    match e with Dev i up =>
+  exists s', step head_discipline s e = Ok (s', (ev_during s e, map hello_count s')) /\ Forall inv s' /\
       forall j, match nth_error s j, nth_error s' j with
                 | Some f, Some f' => passive f' = passive f /\
-                                     link_up f' = (if Nat.eqb j i then up else link_up f)
+                                     link_up f' = (if Nat.eqb j (fst (ev_target e)) then snd (ev_target e) else link_up f)
                 | None, None => True
                 | _, _ => False
-                end
-    end.
+                end.
 Proof.
-  intros s [i up] Hall.
-  destruct (update_nth_inv i s up Hall) as (s' & Hup & Hall' & _ & Hnth).
-  exists s'. unfold step. rewrite Hup. simpl. rewrite (life_ok s' Hall'). simpl.
-  repeat split; auto.
+  intros s e Hall. destruct e as [i up | i up w].
+  - destruct (update_nth_inv i s up Hall) as (s' & Hup & Hall' & _ & Hnth).
+    exists s'. unfold step. rewrite Hup. simpl. rewrite (life_ok s' Hall'). simpl.
+    repeat split; auto.
+  - destruct (update_nth_inv i s up Hall) as (s' & Hup & Hall' & _ & Hnth).
+    destruct (update_nth_during_ok i s up w Hall) as (s'' & Hup' & Hd).
+    rewrite Hup in Hup'. injection Hup' as <-.
+    exists s'. unfold step. rewrite Hd. simpl. rewrite (life_ok s' Hall'). simpl.
+    repeat split; auto.
 Qed.
 
 Lemma run_inv : forall evs s, Forall inv s ->
-  exists s', run s evs = Ok s' /\ Forall inv s' /\
+  exists s', run head_discipline s evs = Ok s' /\ Forall inv s' /\
     forall j, match nth_error s j, nth_error s' j with
               | Some f, Some f' => passive f' = passive f /\
                                    link_up f' = last_up evs j (link_up f)
@@ -142,11 +196,11 @@ Proof.
   - destruct (step_inv s e Hall) as (s1 & Hstep & Hall1 & Hnth1).
     destruct (IH s1 Hall1) as (s2 & Hrun & Hall2 & Hnth2).
     exists s2. simpl. rewrite Hstep. simpl. repeat split; auto.
-    intros j. specialize (Hnth2 j). destruct e as [i up]. specialize (Hnth1 j). simpl.
+    intros j. specialize (Hnth2 j). specialize (Hnth1 j).
     destruct (nth_error s j) as [f |], (nth_error s1 j) as [f1 |], (nth_error s2 j) as [f2 |];
       try contradiction; auto.
     destruct Hnth1 as [Hp1 Hl1]. destruct Hnth2 as [Hp2 Hl2].
-    split; [congruence |]. rewrite Hl2, Hl1. reflexivity.
+    split; [congruence |]. rewrite Hl2, Hl1. destruct e as [i up | i up w]; reflexivity.
 Qed.
 
 Lemma init_inv : forall kinds, Forall inv (init kinds).
@@ -172,7 +226,7 @@ Proof.
 Qed.
 
 Lemma after_run : forall kinds evs s i f,
-  run (init kinds) evs = Ok s -> nth_error s i = Some f ->
+  run head_discipline (init kinds) evs = Ok s -> nth_error s i = Some f ->
   inv f /\ link_up f = last_up evs i false.
 Proof.
   intros kinds evs s i f Hrun Hnth.
@@ -205,13 +259,33 @@ Proof.
     rewrite Hl, Hc in Hinv. destruct Hinv as (_ & Hs & Hr & _). rewrite Hs, Hr. auto.
 Qed.
 
-(* every step's hello output is what sends_hellos says about the new state *)
+(* every step's hello output is what sends_hellos says: about the state before the step for the
+   hello a tick during the update produces, about the new state for the following interval *)
 Theorem step_output : forall kinds evs s e,
-  run (init kinds) evs = Ok s ->
-  exists s', step s e = Ok (s', map hello_count s').
+  run head_discipline (init kinds) evs = Ok s ->
+  exists s', step head_discipline s e = Ok (s', (ev_during s e, map hello_count s')).
 Proof.
   intros kinds evs s e Hrun.
   destruct (run_inv evs (init kinds) (init_inv kinds)) as (s0 & Hrun' & Hall & _).
   rewrite Hrun in Hrun'. injection Hrun' as Hs. subst s0.
   destruct (step_inv s e Hall) as (s' & Hstep & _). exists s'. exact Hstep.
+Qed.
+
+(* ---- the flipped discipline: a hello sender that takes the interface lock ---- *)
+
+(* in ANY state between events in which an active interface's link is up, a link-down update during
+   which the hello ticker fires blocks for good when the sender takes nifa.mu *)
+Theorem sender_lock_blocks : forall f rl, inv f -> passive f = false -> link_up f = true ->
+  device_update_during (mkDisc true rl) f false TickDuring = Blocked WaitHelloSender.
+Proof.
+  intros f rl [_ Hi] Hp Hl. rewrite Hp, Hl in Hi. destruct Hi as (_ & He & Hs & _ & Ht).
+  unfold device_update_during. unfold link_up in Hl. rewrite Hl, Hs, Ht, He. reflexivity.
+Qed.
+
+(* the same for a receiver that takes it *)
+Theorem receiver_lock_blocks : forall f sl, inv f -> passive f = false -> link_up f = true ->
+  device_update_during (mkDisc sl true) f false FrameDuring = Blocked WaitReceiver.
+Proof.
+  intros f sl [_ Hi] Hp Hl. rewrite Hp, Hl in Hi. destruct Hi as (_ & He & _ & Hr & _).
+  unfold device_update_during. unfold link_up in Hl. rewrite Hl, Hr, He. reflexivity.
 Qed.
